@@ -122,6 +122,7 @@ status_t StringMatcher :: SetPattern(const String & s, bool isSimple)
             regexPattern = "^(";
 
             bool escapeMode = false;
+            uint32 numCharsInBrackets = MUSCLE_NO_LIMIT;  // how many set-member chars we've seen so far in the current [...] expression, or MUSCLE_NO_LIMIT if we aren't inside one
             for (const char * ptr = str; *ptr != '\0'; ptr++)
             {
                char c = *ptr;
@@ -129,15 +130,24 @@ status_t StringMatcher :: SetPattern(const String & s, bool isSimple)
                if (escapeMode)
                {
                   escapeMode = false;
+                  if (numCharsInBrackets != MUSCLE_NO_LIMIT) numCharsInBrackets++;
 
                   // A backslash just makes the next character literal.  But regcomp() would treat a backslash followed by a letter, a digit,
                   // or one of <>`' as an operator or a back-reference (e.g. "\w", "\b", "\<", "\1"), so in those cases we drop the backslash.
                   if ((muscleInRange(c, 'a', 'z'))||(muscleInRange(c, 'A', 'Z'))||(muscleInRange(c, '0', '9'))||(strchr("<>`'", c) != NULL)) regexPattern--;
                }
+               else if (numCharsInBrackets != MUSCLE_NO_LIMIT)
+               {
+                  // Inside a [...] expression the characters are just members of the set (e.g. [?*.] matches a question mark, a star, or a dot), so we don't transform them
+                       if (c == '\\')                             escapeMode = true;
+                  else if ((c == ']')&&(numCharsInBrackets > 0)) numCharsInBrackets = MUSCLE_NO_LIMIT;  // end of the [...] expression (a ']' right after the '[' or '[^' is a set-member)
+                  else if ((c != '^')||(numCharsInBrackets > 0)) numCharsInBrackets++;
+               }
                else
                {
                   switch(c)
                   {
+                     case '[':  numCharsInBrackets = 0; break;  // start of a [...] expression
                      case ',':  c = '|';              break;  // commas are treated as union-bars
                      case '.':  regexPattern += '\\'; break;  // dots are considered literals, so escape those
                      case '+':  regexPattern += '\\'; break;  // pluses are considered literals, so escape those
